@@ -126,7 +126,7 @@ def collect_reads_in_parallel(sample, chr_id, args):
         if os.path.exists(group_file) and os.path.exists(save_file):
             read_grouper.read_groups.clear()
             for g in open(group_file):
-                read_grouper.read_groups.add(g.strip())
+                read_grouper.read_groups.add(g.rstrip("\n"))
             alignment_stat_counter = EnumStats(bamstat_file)
             loader = BasicReadAssignmentLoader(save_file)
             while loader.has_next():
